@@ -184,7 +184,11 @@ where
     let shard = self.shared.store.get_shard(&key);
     let guard = shard.map.write_async().await;
 
-    if guard.contains_key(&key) {
+    // An expired entry that has not been collected yet is vacant for the caller.
+    let occupied = guard
+      .get(&key)
+      .map_or(false, |e| !e.is_expired(self.shared.time_to_idle));
+    if occupied {
       AsyncEntry::Occupied(AsyncOccupiedEntry {
         key,
         shard_guard: guard,
